@@ -39,10 +39,11 @@ type cfg struct {
 	Late       int  // entries logged concurrently with the flush (not required to appear)
 	Raw        bool // WriteLog (exact bytes) instead of Infof
 	TwoWriters bool // second logger object with its own writer
+	QueueCap   int  // capacity of the log queue (0: the package's 10000)
 }
 
 func (c cfg) name() string {
-	return fmt.Sprintf("rogger G=%d E=%d pre=%d late=%d raw=%v two=%v", c.G, c.E, c.Pre, c.Late, c.Raw, c.TwoWriters)
+	return fmt.Sprintf("rogger G=%d E=%d pre=%d late=%d raw=%v two=%v cap=%d", c.G, c.E, c.Pre, c.Late, c.Raw, c.TwoWriters, c.QueueCap)
 }
 
 func scenario(c cfg) *vm.Scenario {
@@ -57,7 +58,7 @@ func scenario(c cfg) *vm.Scenario {
 		snapshot = nil
 	}
 	sc.Main = func() {
-		rogger.VerifReset()
+		rogger.VerifResetCap(c.QueueCap)
 		rogger.SetLevel(rogger.DEBUG)
 		lg := rogger.GetLogger("a")
 		lg.SetWriter(w1)
@@ -207,6 +208,10 @@ func main() {
 		add(cfg{G: 2, E: 2, Raw: raw}, -1, b)
 		add(cfg{G: 2, E: 1, TwoWriters: true, Raw: raw}, -1, b)
 		add(cfg{G: 1, E: 1, Late: 1, Raw: raw}, -1, b)
+		// a tiny queue: loggers block on a full queue
+		add(cfg{G: 1, E: 3, Raw: raw, QueueCap: 1}, -1, b)
+		add(cfg{G: 2, E: 2, Raw: raw, QueueCap: 1}, -1, b)
+		add(cfg{G: 1, E: 3, Pre: 1, Raw: raw, QueueCap: 2}, -1, b)
 		if run.Thorough() {
 			add(cfg{G: 2, E: 3, Raw: raw}, -1, b)
 			add(cfg{G: 2, E: 2, Pre: 2, Raw: raw}, -1, b)
